@@ -278,8 +278,8 @@ func (r *c07Run) perRecipient() (groups, leaves int, repeats []string) {
 
 // c07SameLeaves compares the long leaves of the messages SENT BY `c` between run a and run b (where
 // only c's stream differs): the paths ("r<round>.<b|u>:<path>", array indices kept) of the leaves
-// whose value did not change; at most c07SameCap are listed, the rest is counted ("more:<n>").
-const c07SameCap = 24
+// whose value did not change; at most c07SameCap (256) are listed, the rest is counted ("more:<n>").
+const c07SameCap = 256
 
 func c07SameLeaves(a, b *c07Run, c ID) (compared int, same []string) {
 	seen := map[string]bool{}
